@@ -122,17 +122,17 @@ class LDAWrapper(LinearSolver):
         self._last_rtol = 0.
         self.hermitian = hermitian
         self.symmetric = symmetric
+        self._detect_hermitian = hermitian is None  # Not given by the user: detect for every new matrix
+        self._detect_symmetric = symmetric is None
         self.complex = None
         super().__init__(A)
 
     def update(self, A):
         """ Clear the internal stored solution vectors and update the internal ``solver`` """
-        if self.symmetric is None:
+        if self._detect_symmetric:
             self.symmetric = matrix_is_symmetric(A)
 
-        if self.hermitian is None:
-            if not matrix_is_complex(A):
-                self.hermitian = self.symmetric
+        if self._detect_hermitian:
             self.hermitian = matrix_is_hermitian(A)
 
         self.A = A
